@@ -117,8 +117,10 @@ def run(res, proofs_ok, proofs_why):
         T = [0]
         for d in ds:
             T.append(T[-1] + d)
-        where = k % 4
-        if where == 0:
+        where = k % 5
+        if where == 4:            # a record a fraction of a millisecond old: its age counts, however small
+            as_of = mono - rng.randrange(0, 2 * 10 ** 6)
+        elif where == 0:
             as_of = max(0, mono - rng.randrange(0, 900 * NS_))
         elif where == 1:          # ahead of the first monotonic reading of the call, behind a later one
             as_of = mono + T[1] + 1001 + rng.randrange(0, max(1, T[2] - T[1]))
@@ -126,7 +128,7 @@ def run(res, proofs_ok, proofs_why):
             as_of = mono + T[1] + rng.randrange(0, 1001)
         else:                     # ahead of everything the call can read
             as_of = mono + T[-1] + 2000 + rng.randrange(NS_)
-        bound, drift = rng.randrange(10 ** 7), rng.choice([1000, 50000, 10 ** 6, 10 ** 8])
+        bound, drift = rng.randrange(10 ** 7), rng.choice([1000, 50000, 10 ** 6, 10 ** 8, 999999999])
         a, r, mo = K.ts(as_of), K.ts(real), K.ts(mono)
         rec = "%d %d %d 0 %d %d %d" % (a[0], a[1], a[0] + 1000, bound, drift, rng.choice([1, 2]))
         vl.append("ordv %s %d %d %d %d %d %s" % (rec, r[0], r[1], mo[0], mo[1], len(ds), " ".join(map(str, ds))))
